@@ -324,3 +324,63 @@ def quote_lit(s):
     if "`" not in s:
         return "`" + s + "`"
     raise ValueError("cannot quote " + repr(s))
+
+
+# ---- aggregates (C07, C08) -----------------------------------------------------------------
+
+AGGS = ["count", "sum", "min", "max", "avg", "var_pop", "var_samp", "stddev_pop", "stddev_samp"]
+AGG_ALIASES = {"var_pop": ["var_pop", "variance"], "stddev_pop": ["stddev_pop", "stddev", "std"]}
+
+
+def aggregate(fn, values):
+    """Textbook value of aggregate `fn` over a list of ints: exact Fraction/int, float for the roots,
+    or None when the statement does not define it (sample statistics of < 2 values, anything but
+    COUNT/SUM over no rows)."""
+    import math
+    from fractions import Fraction
+    n = len(values)
+    if fn == "count":
+        return n
+    if fn == "sum":
+        return sum(values)
+    if n == 0:
+        return None
+    if fn == "min":
+        return min(values)
+    if fn == "max":
+        return max(values)
+    mean = Fraction(sum(values), n)
+    if fn == "avg":
+        return mean
+    ss = sum((Fraction(v) - mean) ** 2 for v in values)
+    if fn == "var_pop":
+        return ss / n
+    if fn == "stddev_pop":
+        return math.sqrt(ss / n)
+    if n < 2:
+        return None
+    if fn == "var_samp":
+        return ss / (n - 1)
+    if fn == "stddev_samp":
+        return math.sqrt(ss / (n - 1))
+    raise ValueError(fn)
+
+
+def agg_matches(fn, printed, expected):
+    """True/False, or None for don't-care."""
+    from fractions import Fraction
+    if expected is None:
+        return None
+    if fn in ("count", "sum", "min", "max"):
+        try:
+            return int(printed) == expected
+        except ValueError:
+            return False
+    try:
+        got = float(printed)
+    except ValueError:
+        return False
+    want = float(expected)
+    if got != got or got in (float("inf"), float("-inf")):
+        return False
+    return abs(got - want) <= max(1e-9 * abs(want), 1e-12)
